@@ -814,6 +814,11 @@ def rule_pair_distance_covers(repo, rep):
     def attr(self, it, v, attr, node):
       if v == S('self') and attr in ('preprocessor_', 'components_'):
         return S('opaque', attr)
+      if v == S('self'):
+        # a class-level constant (a chunk size, ...)
+        k_, expr = repo.class_attr(c, attr)
+        if expr is not None:
+          return it.ev(expr)
       if tg(v) == 'opaque' and attr in ('T', 'real'):
         return v
       if tg(v) == 'pairs' and attr == 'shape':
